@@ -32,7 +32,12 @@ RULE = (
     "distinct pairs (boundary class = command, fault kind, previous effect, next effect; digest of the "
     "world state the crash left behind). Worlds also include deleted/renamed pages, a whitelisted "
     "broken page (db create -f) and, in the thorough tier, a second kill during the rerun for ~15% of "
-    "the crash points"
+    "the crash points. Additional variants of a crash point: 1-2 user edits between kill and rerun "
+    "(a quarter of the points of plain commands in half of the worlds) or the user undoing the edits "
+    "made since the last indexing, for all pages or a seeded half (every point, other half of the "
+    "plain worlds and all explicit-path worlds). After the rerun: completes, index == recompiled "
+    "files, ZIDs kept and unique, user text kept, further reindex is a no-op and, without a "
+    "between-step, pages == pages of the golden run modulo freshly allocated ZIDs"
 )
 ASSUMPTIONS = [
     "the crashed run follows the golden effect sequence up to the crash point (checked per boundary; mismatch = harness error)",
